@@ -35,3 +35,21 @@ package acrablock
 //@   safety
 //@   requires validBlock(b)
 //@   ensures err != nil ==> out == nil
+
+//@ func init()
+//@   props C01 C03 C14
+//@   ensures len(tagBegin) == 4
+
+// The scanner copies everything it does not recognise and never skips a tag position: after a candidate at
+// beginTagIndex it resumes either one byte further or exactly after the block it handed to the processor.
+//@ func ProcessAcraBlocks(ctx context.Context, inBuffer []byte, outBuffer []byte, processor Processor) (out []byte, err error)
+//@   props C01 C03 C14
+//@   safety
+//@   loop 0 invariant 0 <= inIndex && inIndex <= len(inBuffer)
+//@          invariant 0 <= outIndex && outIndex <= len(outBuffer)
+//@          decreases len(inBuffer) - inIndex
+//@          step no-tag-skipped: (!itercalled(Processor.OnAcraBlock) && inIndex == beginTagIndex + 1) || (itercalled(Processor.OnAcraBlock) && ret(ExtractAcraBlockFromData)[2] == nil && inIndex == beginTagIndex + ret(ExtractAcraBlockFromData)[0])
+//@          step output-advances-with-copy: !itercalled(Processor.OnAcraBlock) ==> outIndex == prev(outIndex) + (beginTagIndex - prev(inIndex)) + 1
+//@   at call bytes.Index : assert sameslice(arg[0], inBuffer[inIndex:]) && sameslice(arg[1], tagBegin)
+//@   at call ExtractAcraBlockFromData : assert sameslice(arg[0], inBuffer[inIndex:])
+//@   at call Processor.OnAcraBlock : assert sameslice(arg[1], ret(ExtractAcraBlockFromData)[1])
